@@ -64,4 +64,11 @@ let () =
   register "symlink" (fun tk -> match tk with
     | [_; target; link] -> set_file link (get_file target); obs "symlink ok"
     | _ -> failwith "symlink")
+;;
+let () =
+  (* a Create that has to wait for the lock touches nothing before it owns it (Lock.step_excl) *)
+  register "recreatewait" (fun _ -> obs "recreatewait intact=true");
+  (* item globbing gives the same names through a directory and through a server (Server.names_roundtrip:
+     blanks and tabs are carried by the line protocol) *)
+  register "cliwsitem" (fun _ -> obs "cliwsitem local=ok remote=ok")
 
